@@ -21,10 +21,14 @@ CLAIMS = {
             'join_miscleaved_peptides names exactly the variants a series of nodes depends on for every presence '
             'pattern of 8 variant roles; create_variant_peptide_id / parse_variant_peptide_id write and recover '
             'exactly those ids after the right backbone (transcript, fusion with donor/acceptor side, circRNA); '
-            'get_peptide_sequences gives every entry a distinct trailing index.',
-            'NOT claimed: the end-to-end statement (named variants applied to the backbone give a translation that '
-            'contains the peptide) - codon alignment, translation, the cleavage graph and its variant bookkeeping '
-            'are out of reach of the engine (DESIGN.md section 6); graph nodes are stand-ins in the join step.'),
+            'get_peptide_sequences gives every entry a distinct trailing index. End to end on THREE fixed transcripts '
+            '(2 SNVs; site-removing SNV + in-frame deletion; 3 SNVs in a pop-collapsed bubble): for every (peptide, header '
+            'entry) pair the real traversal writes, the named variants were supplied, are compatible, and applying exactly '
+            'them gives a translation in which the peptide is a digestion product; no entry string occurs twice - for '
+            'miscleavage 1 (thorough 2) and ALL integer min/max lengths.',
+            'The end-to-end statement is decided on three fixed transcripts only; for other inputs only the kernels '
+            'apply (codon alignment, translation and cleavage-graph construction cannot carry symbolic content: DESIGN.md '
+            'sections 6, 8); graph nodes are stand-ins in the join step.'),
     'C04': (True, CH,
             'Every path of the real callVariant main loop (stubbed collaborators) is explored for every '
             'skip pattern, thread count and is_valid verdict: a rejected peptide never reaches the table '
